@@ -73,6 +73,7 @@ def run(ctx, tier):
                  ("I3", "set_host_or_hostname refusals precede the first mutation, identical in both types"),
                  ("I4", "port writers"), ("I5", "scheme writers store lower-case schemes"),
                  ("I6", "no refusal test is statically dead (compares a value against a constant it is known not to hold)"),
+                 ("I8", "the pathname setter changes nothing before its opaque-path refusal"),
                  ("I7", "the opaque-path flag is raised only in the parser's opaque path state; elsewhere it is copied from "
                         "another record or cleared")):
         ctx.rule(r, t)
@@ -106,7 +107,7 @@ class GuardMonitor(Monitor):
         return self._mut(core, node, eng)
 
     def on_pass(self, core, path, node, mode, eng):
-        if mode in ("ref", "ptr"):
+        if mode in ("ref", "ptr", "move"):
             return self._mut(core, node, eng)
         return [core]
 
@@ -123,6 +124,11 @@ class GuardMonitor(Monitor):
             neg = not neg
             c = X.strip(c["e"])
         if isinstance(c, dict) and c.get("k") == "call" and c.get("name") == self.pred:
+            if (truth != neg) is False:
+                return True
+        # a member flag as the guard (`if (has_opaque_path) return false;`)
+        if isinstance(c, dict) and c.get("k") == "member" and c.get("field") == self.pred and \
+                X.path(c.get("base")) in ("this", None):
             if (truth != neg) is False:
                 return True
         return core
@@ -335,6 +341,21 @@ def check(ctx, fx):
                       % "; ".join("%s at %s" % (t, l.replace("/repo/", "")) for l, t, q in mon.bad[:3]),
                       where=f["loc"].replace("/repo/", ""))
     ctx.floor("I1", n1, 6, "credential/port setters")
+    # ---- I8: "If this's URL has an opaque path, then return" (pathname setter) ----
+    n8 = 0
+    for cls in TYPES:
+        f = fx.fn1("%s::set_pathname" % cls)
+        mon = GuardMonitor("has_opaque_path")
+        eng = Engine(fx, mon)
+        eng.run(f, {"this": "@"}, False)
+        n8 += 1
+        ctx.check("I8", "%s::set_pathname mutates only behind !has_opaque_path" % cls,
+                  not mon.bad and mon.muts > 0, "%d mutation event(s), all behind the opaque-path refusal" % mon.muts,
+                  "the pathname setter changes the URL before (or without) refusing an opaque-path URL (\"If this's URL has an "
+                  "opaque path, then return\"): the opaque path of e.g. mailto:x would be replaced by a list path: %s"
+                  % "; ".join("%s at %s" % (t, l.replace("/repo/", "")) for l, t, q in mon.bad[:3]),
+                  where=f["loc"].replace("/repo/", ""))
+    ctx.floor("I8", n8, 2, "pathname setters")
 
     # ---- I2 ----
     check_scheme_copies(ctx, fx, "I2")
